@@ -12,8 +12,8 @@ LEVEL_TEXT = ("Bounded run-time contracts only: every public solver of quimb.lin
               "orthonormality, defining equations. Nothing is proved beyond the stated sizes and spectra.")
 LEVEL_NOTE = ("Trusted: numpy.linalg (qr, eigh, eigvalsh, svd), scipy.linalg.expm as second reference; tolerances per solver "
               "family (dense 1e-9, ARPACK 1e-7, lobpcg 2e-3; stochastic estimators 10 %); the selection boundary is kept "
-              "separated (>= max(0.05, 0.04 R) for a spectrum in [-R, R]); 5 input classes on which the unchanged library "
-              "crashes or returns a different part of the spectrum are recorded as known findings C17-a..e.")
+              "separated (>= max(0.05, 0.04 R) for a spectrum in [-R, R]); 4 input classes on which the unchanged library "
+              "crashes or returns a different part of the spectrum are recorded as known findings C17-a..d.")
 TECHNIQUE = "run-time contracts on the real functions vs independent numpy references over a stated bounded domain (bounded stand-in)"
 E1 = []                        # filled later by the main session
 PROVIDERS = []
@@ -27,7 +27,10 @@ TRUSTED = [
 ASSUMPTIONS = [
     "sizes d in {6,20,44,45,63,64,99,100,141,142} (thresholds d^2/k = 2000 without and 10000 with a target), k in {1,2,5}; "
     "spectra uniform in [-R, R] (squares for complex spectra), R = max(3, d/15); boundary of the selection separated by "
-    ">= max(0.05, 0.04 R); exact degeneracies only strictly inside or outside the selection",
+    ">= max(0.05, 0.04 R); exact degeneracies only strictly inside or outside the selection, and inside the selection only for "
+    "the dense and lobpcg backends (ARPACK, a single-vector Krylov method, cannot reliably resolve exact multiplicities; when "
+    "it does find both copies of a complex Hermitian matrix the two vectors come back non-orthogonal -- observed, reported, "
+    "outside the stated domain)",
     "which='SM' is only exercised on the dense backend (ARPACK's SM mode without shift-invert does not converge reliably -- "
     "scipy documents this); LinearOperator inputs with a target only for d <= 20 and never for generalized problems (inner "
     "iterative solves take seconds / do not converge); lobpcg only for SA / LA on spectra with well separated extremal "
